@@ -251,7 +251,7 @@ pub fn random_banks<R: Rng>(rng: &mut R, ci: u64) -> (u32, Vec<BankB>, &'static 
         }
         // one inconsistency
         let fault = if banks.len() < 2 { "none" } else { *["none", "none", "none", "rename", "rename-chunk", "swap", "dup", "dup-empty", "drop-trg", "bv", "flip", "unknown",
-                      "drop-bank", "foreign-mac", "not-installed", "dup-trg", "empty16", "near-name", "near-name", "trg-bit"].choose(rng).unwrap() };
+                      "drop-bank", "foreign-mac", "not-installed", "dup-trg", "empty16", "near-name", "near-name", "trg-bit", "rename-channel", "rename-board"].choose(rng).unwrap() };
         let i = rng.gen_range(0..banks.len());
         match fault {
             "rename-chunk" => {
@@ -294,6 +294,26 @@ pub fn random_banks<R: Rng>(rng: &mut R, ci: u64) -> (u32, Vec<BankB>, &'static 
                 let k = rng.gen_range(0..banks[i].data.len().max(1));
                 if !banks[i].data.is_empty() {
                     banks[i].data[k] ^= 1 << rng.gen_range(0..8);
+                }
+            }
+            "rename-channel" | "rename-board" => {
+                // a wire bank whose name disagrees with its payload in exactly ONE of board and channel
+                if let Some(k) = (0..banks.len()).find(|&k| banks[k].name[0] == b'C' && banks[k].name.len() == 4) {
+                    let mut name = banks[k].name.clone();
+                    if fault == "rename-channel" {
+                        let cur = name[3];
+                        let other = *B32.iter().find(|&&c| c != cur).unwrap();
+                        name[3] = if rng.gen() { other } else { B32[(B32.iter().position(|&c| c == cur).unwrap_or(0) + 1) % 32] };
+                    } else {
+                        let cur = String::from_utf8_lossy(&name[1..3]).into_owned();
+                        if let Some(b) = a16_boards().into_iter().find(|b| b.name() != cur) {
+                            name[1..3].copy_from_slice(b.name().as_bytes());
+                        }
+                    }
+                    // only if no other bank already carries that name (a duplicate would be another fault)
+                    if banks.iter().all(|b| b.name != name) {
+                        banks[k].name = name;
+                    }
                 }
             }
             "unknown" => banks[i].name = b"ZZZZ".to_vec(),
